@@ -20,7 +20,7 @@ OBLIGATION_MSG = re.compile(
     r"|possible arithmetic underflow/overflow|possible division by zero|possible bit shift"
     r"|decreases not satisfied|could not prove termination|unable to prove assertion|constructed value may fail"
     r"|recommendation not met|assert_by|could not show invariant|unreachable\(\)|requires not satisfied"
-    r"|fails to satisfy|index out of bounds|may be out of bounds|cannot show invariant holds)",
+    r"|fails to satisfy|unable to prove post-condition of closure|unable to prove|index out of bounds|may be out of bounds|cannot show invariant holds)",
     re.I,
 )
 RLIMIT_MSG = re.compile(r"(resource limit|rlimit)", re.I)
